@@ -8,6 +8,7 @@ import (
 	"encoding/base64"
 	"fmt"
 	"net"
+	"sort"
 	"strings"
 
 	"github.com/hashicorp/nodeenrollment"
@@ -73,9 +74,25 @@ func NewWire(r *kernel.Run, srv *World, base *tls.Config, options []nodeenrollme
 		c.Capture = true
 		return c, nil
 	}
-	r.OnClose(func() { protocol.SimDial = nil })
+	// hook H3: the order in which Dial tries its (up to two) chains is a tape choice instead of map-iteration order
+	nodetls.SimOrderConfigs = func(cfgs []*tls.Config) {
+		sort.SliceStable(cfgs, func(i, j int) bool { return prefOf(cfgs[i]) < prefOf(cfgs[j]) })
+		if len(cfgs) == 2 && r.Tape.Draw(2) == 1 {
+			cfgs[0], cfgs[1] = cfgs[1], cfgs[0]
+		}
+	}
+	r.OnClose(func() { protocol.SimDial = nil; nodetls.SimOrderConfigs = nil })
 	r.Sched.Managed()
 	return w
+}
+
+func prefOf(c *tls.Config) string {
+	for _, p := range c.NextProtos {
+		if strings.HasPrefix(p, nodeenrollment.CertificatePreferenceV1Prefix) {
+			return p
+		}
+	}
+	return ""
 }
 
 // StartAcceptor runs a gRPC-like accept loop: continue on temporary errors, stop otherwise.
